@@ -17,19 +17,24 @@ Vals == IF Prop = "C03" THEN (IF Tier = "quick" THEN ValsC ELSE ValsC \o ValsQ)
         ELSE IF Tier = "quick" THEN ValsQ ELSE ValsT
 ValsNN == SelectSeq(Vals, LAMBDA v : v.t # "None")
 
-IndexPool == << [k |-> "f", name |-> S("a")], [k |-> "f", name |-> S("A")], [k |-> "f", name |-> S("facts")],
+IndexPool == << [k |-> "f", name |-> S("a")], [k |-> "f", name |-> S("A")], [k |-> "f", name |-> S("facts")], [k |-> "f", name |-> S("1")],
+                [k |-> "f", name |-> S("")],
                 [k |-> "i", i |-> 0], [k |-> "i", i |-> 1], [k |-> "i", i |-> 2] >>
 
 SeqToSet(s) == {s[i] : i \in 1..Len(s)}
-Kinds1 == SeqToSet(UnaryKinds) \cup {"if"}
-Kinds2 == SeqToSet(StrictBinaryKinds) \cup SeqToSet(LazyBinaryKinds) \cup {"index"}
+\* Prop = "C12": only the date / time / duration cells (replayed under a non-UTC local time zone)
+TimeKinds1 == {"datetime", "duration", "year", "month", "week", "day", "hour", "minute", "second"}
+Kinds1 == IF Prop = "C12" THEN TimeKinds1 ELSE SeqToSet(UnaryKinds) \cup {"if"}
+Kinds2 == IF Prop = "C12" THEN {"add", "sub", "gt", "eq"} ELSE SeqToSet(StrictBinaryKinds) \cup SeqToSet(LazyBinaryKinds) \cup {"index"}
 
 Init == c \in {[kind |-> k, ar |-> 1, a |-> <<>>] : k \in Kinds1}
               \cup {[kind |-> k, ar |-> 2, a |-> <<>>] : k \in Kinds2}
 
 \* the pool for the next operand position
+TimeVals == SelectSeq(Vals, LAMBDA v : v.t \in {"DT", "Dur", "Str", "Int"})
 NextPool ==
-  IF c.kind = "index" /\ Len(c.a) = 1 THEN IndexPool
+  IF Prop = "C12" THEN TimeVals
+  ELSE IF c.kind = "index" /\ Len(c.a) = 1 THEN IndexPool
   ELSE IF Prop = "C03" THEN ValsNN
   ELSE IF Prop = "C04" THEN
        (IF c.ar = 1 THEN <<VNone>>
